@@ -270,7 +270,14 @@ func KE(r *R) (uint16, abs.HB) {
 // AuthData / CertData: lengths and leading octets that go with the method / encoding.
 func AuthData(r *R, method uint8) abs.HB {
 	switch method {
-	case 1, 14: // RSA / digital signature
+	case 14: // RFC 7427: length octet, AlgorithmIdentifier (parameters absent or NULL), signature
+		alg := [][]byte{{0x30, 0x0a, 0x06, 0x08, 0x2a, 0x86, 0x48, 0xce, 0x3d, 0x04, 0x03, 0x02},
+			{0x30, 0x0d, 0x06, 0x09, 0x2a, 0x86, 0x48, 0x86, 0xf7, 0x0d, 0x01, 0x01, 0x0b, 0x05, 0x00}}[r.Intn(2)]
+		if r.Chance(1, 3) {
+			return Data(r, 1)
+		}
+		return append(append(abs.HB{byte(len(alg))}, alg...), r.Bytes(r.Pick(64, 72, 256))...)
+	case 1: // RSA signature
 		n := r.Pick(128, 256, 384, 512, 257)
 		d := abs.HB(r.Bytes(n))
 		if r.Bool() {
